@@ -230,14 +230,36 @@ def spec_label_set(spec):
 CASE_DEADLINE = 60.0
 
 
-def eval_case(spec, recipe, backend, kind, window=None):
+def warm_continuum(spec, warm_recipe, kind):
+    """The same continuum reached through a non-initial state: built without its last unit, aligned once (with
+    another dissimilarity), then completed by add().  Anything cached on the continuum under a too coarse key
+    (unit arrays, candidate tables, window size) would survive into the run that is judged."""
+    from ..spec import build_continuum
+    from pyannote.core import Segment
+    anns = [[a, [list(u) for u in us]] for a, us in spec["annotators"]]
+    nonempty = [i for i, (_, us) in enumerate(anns) if us]
+    if sum(len(us) for _, us in anns) < 2 or not nonempty:
+        return build_continuum(spec)
+    i = nonempty[-1]
+    last = anns[i][1].pop()
+    c = build_continuum({"annotators": anns})
+    try:
+        run_alignment(c, DISSIMS.get(warm_recipe), kind if kind != "fast" else "best", None)
+    except Exception:  # noqa - the warm-up run is not judged
+        pass
+    c.add(anns[i][0], Segment(last[0], last[1]), last[2])
+    return c
+
+
+def eval_case(spec, recipe, backend, kind, window=None, warm=None):
     """Run the library on one case.  Returns dict(ok, nts, disorder, uds, solvers) or dict(ok=False, exc)."""
     from ..pool import deadline, CaseTimeout
     from ..spec import build_continuum
     set_backend(backend)
     try:
         with deadline(CASE_DEADLINE):
-            c = build_continuum(spec)
+            c = build_continuum(spec) if warm is None else warm_continuum(spec, warm, kind)
+            _state["calls"].clear()
             d = DISSIMS.get(recipe)
             al = run_alignment(c, d, kind, window)
             nts, dis, uds = observe_alignment(al)
